@@ -60,7 +60,7 @@ Value& MemberSETExpression::value(Context& ctx) const
       case Type::INTEGER:
         if (a0.type() == Type::NUMERIC)
         {
-          rv->at(_index).swap(Value(Integer(*a0.numeric())));
+          rv->at(_index).swap(Value(Value::integerOf(*a0.numeric())));
           return val;
         }
         else if (a0.type() == Type::NO_TYPE)
